@@ -10,8 +10,8 @@
    FULL STATEMENT: see Embed/C07Statement.v.  What is proved here is the PRINTER half,
    [C07_printer]; the PARSER half (an embedded query parses to the same AST as on its own, and
    "(" q ")" parses to the AST of q -- the delimiter-simulation lemma of DESIGN C06/C07) is NOT
-   proved: `partial`, covered by the metamorphic harness /verif/harness/cmd/embed only, which
-   refutes it for statement-level `WITH ... UNION` (a known finding, see the report).
+   proved: `partial`, covered by the metamorphic harness /verif/harness/cmd/embed only (which
+   refuted it once, for statement-level `WITH ... UNION`; fixed in /repo 5f679c112).
 
    [C07_printer] = (a) the shift law of the printers over the inventory GENERATED from
    /repo/internal/explain (per-run obligations [C07_inventory_checked], [C07_select_printers_closed],
@@ -76,8 +76,9 @@ Theorem C07_select_printers_test_free : test_free_b depth_inventory select_zero_
 Proof. exact C07_select_test_free. Qed.
 Print Assumptions C07_select_printers_test_free.
 
-(* whether the inventory is clean without the quarantine (false while the BACKUP / RESTORE /
-   DESCRIBE findings exist; the check script prints a KNOWN-FINDING line per quarantined function) *)
+(* whether the inventory is clean without any quarantine (true today; it was false while the
+   BACKUP / RESTORE / DESCRIBE absolute-depth findings existed, fixed in /repo 8ca5f6e9c; the check
+   script prints a KNOWN-FINDING line per quarantined function) *)
 Theorem C07_clean_value : check_depth_clean depth_inventory c07_allow = C07_clean.
 Proof. exact C07_clean_spec. Qed.
 Print Assumptions C07_clean_value.
